@@ -83,6 +83,9 @@ func (h *DirHandler) AddOut(msg *fbb.Message) error {
 func (h *DirHandler) ProcessInbound(msgs ...*fbb.Message) (err error) {
 	dir := path.Join(h.MBoxPath, DIR_INBOX)
 	for _, m := range msgs {
+		if !validMID(m.MID()) {
+			return fmt.Errorf("Unable to write received message: Invalid MID '%s'", m.MID())
+		}
 		filename := path.Join(dir, m.MID()+Ext)
 
 		m.Header.Set("X-Unread", "true")
@@ -100,7 +103,7 @@ func (h *DirHandler) ProcessInbound(msgs ...*fbb.Message) (err error) {
 }
 
 func (h *DirHandler) GetInboundAnswer(p fbb.Proposal) fbb.ProposalAnswer {
-	if h.sendOnly {
+	if h.sendOnly || !validMID(p.MID()) {
 		return fbb.Defer
 	}
 
@@ -119,6 +122,11 @@ func (h *DirHandler) GetInboundAnswer(p fbb.Proposal) fbb.ProposalAnswer {
 }
 
 func (h *DirHandler) SetSent(MID string, rejected bool) {
+	if !validMID(MID) {
+		log.Printf("Unable to mark %s as sent: Invalid MID", MID)
+		return
+	}
+
 	oldPath := path.Join(h.MBoxPath, DIR_OUTBOX, MID+Ext)
 	newPath := path.Join(h.MBoxPath, DIR_SENT, MID+Ext)
 
@@ -126,6 +134,11 @@ func (h *DirHandler) SetSent(MID string, rejected bool) {
 		log.Fatalf("Unable to move %s to %s: %s", oldPath, newPath, err)
 	}
 }
+
+// validMID reports whether the MID can be used as a file name within the mailbox directories.
+//
+// The MID is chosen by the remote station. It must not be possible to address files outside the mailbox with it.
+func validMID(MID string) bool { return !strings.ContainsAny(MID, "/\\\x00") }
 
 func (h *DirHandler) SetDeferred(MID string) {
 	h.deferred[MID] = true
